@@ -26,7 +26,8 @@ func c19Doc(r *fw.Rand, hostile bool) (string, []string) { return c19DocF(r, hos
 
 // c19DocF: first is the index of the first hostile feature (stratification), -1 = random.
 func c19DocF(r *fw.Rand, hostile bool, first int) (string, []string) {
-	g := gen.NewFG(r, gen.FGOpts{People: r.Range(2, 14), MultiNames: true, WithSources: true, NoLiving: r.Bool(), StartYear: 1800})
+	// a third of the documents start late enough for living people (visibility then matters)
+	g := gen.NewFG(r, gen.FGOpts{People: r.Range(2, 14), MultiNames: true, WithSources: true, NoLiving: r.Bool(), StartYear: []int{1800, 1880, 1950}[r.Intn(3)]})
 	var notes []string
 	if hostile {
 		pick := func() *gen.Person { return g.People[r.Intn(len(g.People))] }
